@@ -155,7 +155,13 @@ class Ctx:
         f = self.fn(rule, fid, inst)
         if f is None: return False
         an = self.an
-        b_sites = an.sites(f, B, b_mode)
+        if isinstance(B, (list, tuple)):
+            b_sites = set()
+            for b in B: b_sites |= an.sites(f, b, b_mode)
+            class _L: pass
+            BL = _L(); BL.label = " | ".join(b.label for b in B); B = BL
+        else:
+            b_sites = an.sites(f, B, b_mode)
         if not b_sites:
             self.missing(rule, fid, inst, "no site performing `%s` in %s" % (B.label, fid)); return False
         starts = []
